@@ -98,7 +98,7 @@ class CanaryExtractor(extract.Extractor):
         self.canaries.append(cname)
 
 
-def run_canary(unit, workdir):
+def run_canary(unit, workdir, timeout=900):
     """Returns (ok, detail). ok == True when every verified-here exec function fails with the canary."""
     gen = os.path.join(workdir, unit + '__canary.rs')
     ex = CanaryExtractor()
@@ -111,7 +111,7 @@ def run_canary(unit, workdir):
     import subprocess
     cmd = [verus_run.VERUS, gen, '--output-json', '--time-expanded', '--error-format=json', '--multiple-errors', '2']
     try:
-        p = subprocess.run(cmd, capture_output=True, text=True, timeout=600, cwd=workdir)
+        p = subprocess.run(cmd, capture_output=True, text=True, timeout=timeout, cwd=workdir)
     except subprocess.TimeoutExpired:
         return None, 'canary timeout', 0
     try:
@@ -258,14 +258,15 @@ def main(argv=None):
     with cf.ThreadPoolExecutor(max_workers=16) as pool:
         futs = {}
         for u in units:
-            futs[pool.submit(verus_run.run_unit, u, os.path.join('units', u + '.vrs'), workdir)] = ('unit', u)
-            futs[pool.submit(run_canary, u, workdir)] = ('canary', u)
+            tmo = 3600 if tier == 'thorough' else 900
+            futs[pool.submit(verus_run.run_unit, u, os.path.join('units', u + '.vrs'), workdir, None, None, (), tmo)] = ('unit', u)
+            futs[pool.submit(run_canary, u, workdir, tmo)] = ('canary', u)
             if tier == 'thorough':
                 for k in range(3):
                     futs[pool.submit(verus_run.run_unit, u + '__seed%d' % k, os.path.join('units', u + '.vrs'), workdir,
-                                     None, None, ('--smt-option', 'smt.random_seed=%d' % (seed * 7 + k + 1)))] = ('seed', u, k)
+                                     None, None, ('--smt-option', 'smt.random_seed=%d' % (seed * 7 + k + 1)), 3600)] = ('seed', u, k)
                 futs[pool.submit(verus_run.run_unit, u + '__halfrlimit', os.path.join('units', u + '.vrs'), workdir,
-                                 None, 5)] = ('half', u)
+                                 None, 5, (), 3600)] = ('half', u)
         stability = {}
         for f in cf.as_completed(futs):
             tag = futs[f]
